@@ -1,9 +1,9 @@
 #!/bin/bash
 # usage: try_mutation.sh <mutdir> <demo-pkg-dir> <property> [job-filter]
 # Confirms a seeded change in a scratch worktree (applies, builds, stable suite passes, demo fails with / passes
-# without), then runs the property's quick check against /repo with the change applied and reverts it.
+# without), then runs the property's quick check against the scratch worktree with the change applied.
 set -u
-MD=$1; PKG=$2; PROP=$3; JOB=${4:-}
+MD=$(realpath $1); PKG=$2; PROP=$3; JOB=${4:-}
 WT=/tmp/wt_try_$$
 export GOFLAGS=-mod=mod
 git -C /repo worktree add -q --detach $WT HEAD || exit 2
@@ -18,9 +18,13 @@ git apply -R $MD/patch.diff
 DEMO_WITHOUT=$(unshare -n -- bash -c "ip link set lo up; cd $WT && go test -vet=off -count=1 -timeout 120s -run 'Demo|demo|ZZ' ./$PKG 2>&1 | tail -3 | tr '\n' ' '" | cut -c1-200)
 echo "RESULT stable=[$STABLE] demo_with=[$DEMO_WITH] demo_without=[$DEMO_WITHOUT]"
 cd /verif
-git -C /repo apply $MD/patch.diff
-if [ -n "$JOB" ]; then OUT=$(./bin/vcheck $PROP --tier quick --job "$JOB" 2>&1); else OUT=$(./bin/vcheck $PROP --tier quick 2>&1); fi
+# the check runs against the scratch worktree with the change applied (VERIF_REPO), evidence/replays redirected
+# (VERIF_OUT); /repo itself is not touched
+rm -f $WT/$PKG/zz_demo_test.go
+git -C $WT apply $MD/patch.diff
+OUTD=/tmp/try_out_$$; mkdir -p $OUTD
+if [ -n "$JOB" ]; then OUT=$(VERIF_REPO=$WT VERIF_OUT=$OUTD ./bin/vcheck $PROP --tier quick --job "$JOB" 2>&1); else OUT=$(VERIF_REPO=$WT VERIF_OUT=$OUTD ./bin/vcheck $PROP --tier quick 2>&1); fi
 RC=$?
-git -C /repo checkout -- .
+rm -rf $OUTD
 echo "CHECK rc=$RC $(echo "$OUT" | grep -c '^VIOLATION') violations"
 echo "$OUT" | grep "^VIOLATION\|assertion=" | head -4 | cut -c1-220
